@@ -355,6 +355,8 @@ def st_analysis_case(draw, methods=('cycles', 'amp'), centers=('peak', 'trough')
             fek['filter_kwargs'] = fk
         if bnd is not None:
             fek['boundary'] = bnd
+        if draw(st.integers(0, 5)) == 0:
+            fek['pad'] = False               # documented option of find_extrema: no zero padding before filtering
     sig = draw(st_signal(band, n, tie_rich=tie_rich, bursty=bursty))
     return {'fs': fs, 'f_range': [f_lo, f_hi], 'sig': sig, 'center': center, 'method': method,
             'fek': fek, 'th': th, 'bk': bk, 'routing': routing,
@@ -395,6 +397,8 @@ def case_labels(case):
     fk = fek.get('filter_kwargs')
     out.append('filt:' + ('default' if not fk else ('n_seconds' if 'n_seconds' in fk else 'n_cycles')))
     out.append('boundary:' + ('absent' if 'boundary' not in fek else ('0' if fek['boundary'] == 0 else '>0')))
+    if fek.get('pad') is False:
+        out.append('pad:False')
     if case.get('routing'):
         out.append('routing:' + case['routing'])
     if case['method'] == 'cycles':
